@@ -11,6 +11,7 @@
   bufio.Scanner), Model.Stream (Stream's loop, processors, scripted reader and writer).
 -/
 import Model.Stream
+import Proofs.Stream
 
 namespace Jl.C08
 open Jl Jl.Scanner Jl.Stream
@@ -47,6 +48,49 @@ theorem write_failure_reported (cfg : Cfg) (row : List (Bytes × Val)) (rest : L
     exportWith cfg row (.fail :: rest) = .ok (some [], some .io, rest) ∧
     ∀ n, exportWith cfg row (.short n :: rest) = .ok (some (b.take n), some .io, rest) := by
   simp [exportWith, h]
+
+/-- C08, reader side, over whole runs: a stream that returns nil and made no error call has
+    consumed the ENTIRE input (script exhausted, buffer empty, clean EOF) — it never returns
+    success after discarding unprocessed input.  Holds for reader failures at any offset
+    (line boundaries and offset 0 included), over-long lines and no-progress readers. -/
+theorem silent_success_consumed_everything (cfg : Cfg) (reader : List ReadEv) (ws : List WriteEv)
+    (obs : Obs) (st' : St) (hpow : cfg.maxSize ≤ cfg.initSize * 2 ^ 200)
+    (h : streamSt cfg reader ws = .ok (obs, st')) (hret : obs.ret = none)
+    (hcalls : ∀ c ∈ obs.calls, c.2 = none) :
+    st'.err = none ∧ st'.eof = true ∧ st'.script = [] ∧ st'.buf = [] :=
+  C08_silent_success_consumed_everything cfg reader ws obs st' hpow h hret hcalls
+
+/-- Any scanner failure (I/O error, over-long line, no progress) is reported: through the
+    return value or through a processor call carrying it. -/
+theorem failure_reported (cfg : Cfg) (reader : List ReadEv) (ws : List WriteEv) (obs : Obs) (st' : St)
+    (e : ScanErr) (h : streamSt cfg reader ws = .ok (obs, st')) (herr : errOf st' = some e) :
+    obs.ret ≠ none ∨ ∃ c ∈ obs.calls, c.2 = some (scanErrClass e) :=
+  C08_failure_reported cfg reader ws obs st' e h herr
+
+/-- Under the default processor every error is fatal and returned, and it is the last thing
+    that happened: no call before the last carries an error. -/
+theorem default_processor_fatal (cfg : Cfg) (hp : cfg.proc = .default) (fuel : Nat) (st : St)
+    (ws : List WriteEv) (obs : Obs) (st' : St)
+    (h : loop cfg fuel st ws ⟨none, [], []⟩ = .ok (obs, st')) :
+    (∀ c ∈ obs.calls.dropLast, c.2 = none) ∧ obs.ret = obs.calls.getLast?.bind (·.2) :=
+  C08_default_fatal cfg hp fuel st ws obs st' h
+
+/-- Writer side: every element of `writes` is a complete exported line (ending in LF) when its
+    `Write` succeeded, and the truncated / empty bytes of the failing call otherwise. -/
+theorem writes_are_complete_lines (cfg : Cfg) (fuel : Nat) (st : St) (ws : List WriteEv) (obs : Obs) (st' : St)
+    (h : loop cfg fuel st ws ⟨none, [], []⟩ = .ok (obs, st')) (i : Nat) (w : Bytes)
+    (hw : obs.writes[i]? = some w) :
+    ∃ b b0, ExportedLine cfg b ∧ b = b0 ++ [0x0A] ∧ w = writeResult b ws[i]? :=
+  C08_writes cfg fuel st ws obs st' h i w hw
+
+/-- After a write failure has been returned as fatal (default processor) nothing more is
+    written: the failing write is the last one and the stream returns the I/O error. -/
+theorem nothing_written_after_fatal_write (cfg : Cfg) (hp : cfg.proc = .default) (fuel : Nat) (st : St)
+    (ws : List WriteEv) (obs : Obs) (st' : St)
+    (h : loop cfg fuel st ws ⟨none, [], []⟩ = .ok (obs, st')) (i : Nat) (ev : WriteEv)
+    (hi : i < obs.writes.length) (hev : ws[i]? = some ev) (hf : ev.isFail = true) :
+    i + 1 = obs.writes.length ∧ obs.ret = some .io :=
+  C08_default_write_failure cfg hp fuel st ws obs st' h i ev hi hev hf
 
 /-! Non-vacuity: a reader failing before the first byte, and exactly after a newline. -/
 example : (scan 4 8 100 (Scanner.init 4 [.err])).1 = none ∧
